@@ -156,7 +156,7 @@ def phase1(c):
             for f in p.pre + p.pc + nofl:
                 s.add(f)
             s.add(z3.Not(exact_formula(name, a, b)))
-            o = core.smt("%s/op%02d-%s-exact" % (base, i, name[2:].lower()), PROP, s, functions=(c["name"].split("[")[0],), text="operation %d (%s) commits no rounding error on the domain" % (i, name), claimed=False, budget_s=(c["budget"] or 300) if c["claimed"] else 40, kind="lemma", meta=dict(case=c["name"], t=c["t"].__name__))
+            o = core.smt("%s/op%02d-%s-exact" % (base, i, name[2:].lower()), PROP, s, functions=(c["name"].split("[")[0],), text="operation %d (%s) commits no rounding error on the domain" % (i, name), claimed=False, budget_s=(c["budget"] or 300) if c["claimed"] else 40, kind="lemma", meta=dict(case=c["name"], t=c["t"].__name__, besteffort=not c["claimed"]))
             obls.append(o)
             ops.append((o, r))
         info.append(dict(path=p, base=base, ops=ops, nofl=nofl, exc=None))
@@ -169,7 +169,7 @@ covers = {}
 def phase2(rep, c, vars_, info):
     fn = (c["name"].split("[")[0],)
     t = c["t"]
-    meta0 = dict(case=c["name"], t=t.__name__)
+    meta0 = dict(case=c["name"], t=t.__name__, besteffort=not c["claimed"])
     if not info:
         rep.add(core.decided(case_id(c) + "/paths", PROP, False, functions=fn, text="no feasible path", claimed=c["claimed"]))
     for it in info:
@@ -215,7 +215,7 @@ def phase2(rep, c, vars_, info):
         s = z3.Solver()
         for f in p.pre + p.pc + it["nofl"]:
             s.add(f)
-        covers.setdefault(case_id(c), []).append(core.smt(base + "/cover", PROP, s, functions=fn, text="cover: the domain of this path is inhabited", expect="sat", kind="cover", claimed=False, budget_s=c["budget"] or 120))
+        covers.setdefault(case_id(c), []).append(core.smt(base + "/cover", PROP, s, functions=fn, text="cover: the domain of this path is inhabited", expect="sat", kind="cover", claimed=False, budget_s=c["budget"] or 120, meta=dict(besteffort=not c["claimed"])))
 
 
 # --------------------------------------------------------------------------------------------- replay
